@@ -10,7 +10,8 @@ CONSTANTS StripAllCR,   \* design FALSE: exactly one trailing CR is stripped (TR
           SplitAtCR,    \* design FALSE: lines end at LF only (TRUE: a lone CR also ends a line)
           DropFinal,    \* design FALSE: decode_eof yields the final unterminated line (TRUE: drops it)
           LossyUtf8,    \* design FALSE: invalid UTF-8 is an error (TRUE: bad bytes replaced by '?')
-          EncodeLFs     \* design 1: encode appends exactly one LF
+          EncodeLFs,    \* design 1: encode appends exactly one LF
+          EofSkipsDecode \* design FALSE: decode_eof first decodes a complete line if one is buffered (TRUE: tail logic only)
 
 A == 97  CR == 13  LF == 10  C3 == 195  A9 == 169  FF == 255  QM == 63
 Alphabet == {A, CR, LF, C3, A9, FF}
@@ -51,7 +52,7 @@ Decode(src) == IF src = <<>> THEN <<None, src>>
                     ELSE <<Item(StripCR(SubSeq(src, 1, n - 1))), SubSeq(src, n + 1, Len(src))>>
 \* decode_eof(src)                             (lines.rs 65-86)
 DecodeEof(src) == LET d == Decode(src) IN
-                  IF d[1].k # "none" THEN d
+                  IF d[1].k # "none" /\ ~EofSkipsDecode THEN d
                   ELSE IF src = <<>> THEN <<None, src>>
                   ELSE LET cr == src[Len(src)] = CR
                            buf == IF cr THEN SubSeq(src, 1, Len(src) - 1) ELSE src
@@ -68,6 +69,8 @@ Phase(src, eof) == LET d == IF eof THEN DecodeEof(src) ELSE Decode(src) IN
                    ELSE LET r == Phase(d[2], eof) IN <<<<d[1]>> \o r[1], r[2]>>
 All(src) == LET p == Phase(src, FALSE) IN <<p[1], Phase(p[2], TRUE)[1]>>
 AllFlat(src) == All(src)[1] \o All(src)[2]
+\* a caller that drains the buffer with decode_eof alone (the last read arrived together with the end of the stream)
+EofOnly(src) == Phase(src, TRUE)[1]
 
 \* ---- independent reference (property C15), never touched by the variants ----
 RefIndexOf(s, b) == IF \E i \in 1..Len(s) : s[i] = b
